@@ -341,6 +341,19 @@ def run(ctx: Ctx) -> int:
         construct="root types have arms",
     )
 
+    # the hint an action validates against is the one that is left after unsupported Union members were discarded:
+    # `self._typehint = <hint>` is not followed by another assignment of <hint>
+    ati = ctx.func("_typehints:ActionTypeHint.__init__")
+    gati = ctx.cfg(ati)
+    th_stores = [s_ for s_ in walk_local(ati) if isinstance(s_, ast.Assign) and isinstance(s_.targets[0], ast.Attribute) and s_.targets[0].attr == "_typehint" and isinstance(s_.value, ast.Name)]
+    ctx.need(th_stores, "ActionTypeHint.__init__: self._typehint = typehint")
+    for s_ in th_stores:
+        v = s_.value.id
+        redefs = [d_ for d_ in walk_local(ati) if isinstance(d_, ast.Assign) and any(isinstance(t, ast.Name) and t.id == v for t in d_.targets)]
+        later = [d_ for d_ in redefs if gati.can_reach(gati.cn(s_), gati.cn(d_))]
+        ok = not later
+        ctx.oblige("C02.e", ok, later[0] if later else s_, f"`self._typehint` is the final value of `{v}`" if ok else f"`{v}` is reassigned ({src(later[0], 50)}) after it was stored in self._typehint: the discarded (unsupported) Union members stay in the stored hint, no arm of adapt_typehints handles them and such a member ACCEPTS ANY VALUE unchanged - Union[int, Deque[int]] accepts 'abc', and the result depends on the member order", fn=ati, construct="stored hint is the filtered hint")
+
     # ---------------- C02.f hints reach the adapter as declared ------------------------------------------------------
     # (1) names that exist in both typing and typing_extensions are taken from typing_extensions whenever it is there:
     #     the shadow capture (_capture_typing_extension_shadows) only ADDS the typing variant when the primary one is
